@@ -294,6 +294,61 @@ def stale_entry_then_live(ctx: Ctx, kind: str) -> None:
             ctx.report(f"stop-touches-foreign[{kind}]", f"[{kind}] the stop of runner A changed an invocation held by runner B: now {rx.status.value}, owner {rx.runner_id}", rep)
 
 
+def ended_thread_not_final(ctx: Ctx, kind: str) -> None:
+    """the stop request arrives when a task thread has ENDED but its invocation is not final and still the runner's: the body asked
+    for a pause (the run handler only logs it: RUNNING), or the store failed at the PENDING -> RUNNING write (the thread dies:
+    PENDING).  The loop has not pruned the thread yet (the stop comes within the same iteration).  Also a live invocation next to it."""
+    import sqlite3
+
+    for how in ("pause", "fault-at-running"):
+        app = make_app(kind, ctx.tmp, app_id=f"c11ended{kind}{how[:2]}", runner_cls="ThreadRunner", runner_loop_sleep_time_sec=0.002, min_parallel_slots=2, max_threads=2)
+        task = app.task(T.c11_slow)
+        runner = app.runner
+        o = app.orchestrator
+        runner._on_start()
+        x = task("pause" if how == "pause" else "ok", 0.0)
+        y = task("ok", 0.5)
+        real = type(o)._atomic_status_transition
+        hit = []
+
+        def faulty(self, inv_id, status, owner=None, _real=real, _x=x.invocation_id):  # type: ignore[no-untyped-def]
+            if how == "fault-at-running" and inv_id == _x and status.value == "running" and not hit:
+                hit.append(1)
+                raise sqlite3.OperationalError("disk I/O error") if kind == "sqlite" else OSError("store unreachable")
+            return _real(self, inv_id, status, owner)
+
+        type(o)._atomic_status_transition = faulty  # type: ignore[method-assign]
+        err = None
+        try:
+            runner.runner_loop_iteration()                 # claims both, starts both threads
+            t0 = _time.time()
+            while _time.time() - t0 < 5:
+                tx = runner.threads.get(x.invocation_id)
+                if tx is not None and not tx.thread.is_alive() and o.get_invocation_status(y.invocation_id).value == "running":
+                    break
+                _time.sleep(0.001)
+            before = o.get_invocation_status_record(x.invocation_id)
+            try:
+                runner._on_stop()                           # the stop request, honoured before the next iteration
+            except BaseException as e:  # noqa: BLE001
+                err = f"{type(e).__name__}: {e}"
+        finally:
+            type(o)._atomic_status_transition = real  # type: ignore[method-assign]
+        flush(app)
+        q = queue_of(app)
+        ctx.count()
+        ctx.distinct((kind, "ended-thread-not-final", how))
+        for lab, inv in (("ended", x), ("live", y)):
+            r = o.get_invocation_status_record(inv.invocation_id)
+            st = r.status.value
+            ok = st in ("success", "failed", "concurrency_controlled_final") or (st in ("registered", "rerouted", "retry") and r.runner_id is None and inv.invocation_id in q)
+            if err is not None or not ok:
+                ctx.report(f"stop-leaves[{kind}]:{st}:ended-thread:{how}:{lab}",
+                           f"[{kind}] the runner stops while its table holds the ended thread of an invocation that is {before.status.value} (not final: {how}) and a live RUNNING one: _on_stop "
+                           f"{'raised ' + err if err else 'returned'}; afterwards the {lab} invocation is {st}, owner {r.runner_id}, queued {inv.invocation_id in q}",
+                           {"kind": "ended-thread-not-final", "backend": kind, "how": how})
+
+
 def trs_status(name: str):  # type: ignore[no-untyped-def]
     from pynenc.invocation.status import InvocationStatus
 
@@ -451,6 +506,7 @@ def run(ctx: Ctx) -> None:
             scheduled(ctx, kind, drv)
             poller_during_stop(ctx, kind)
             stale_entry_then_live(ctx, kind)
+            ended_thread_not_final(ctx, kind)
             running_child_on_same_runner(ctx, kind)
             realtime(ctx, kind)
         waiting_parent(ctx, "mem")
